@@ -195,16 +195,32 @@ class World:
                 i = world.index_of.get(node_id, -1) if node_id is not None else None
                 world.obs2.append([kind, _rid(), i, x, world.obs_taken + len(world.obs)])
 
+            @staticmethod
+            async def _io(kind, node_id=None):
+                # where the first manager raises (spec['cbraise']) this one is never reached — managers are notified one
+                # after another and the exception of the first ends the emit.  It "does I/O" exactly there: were the
+                # managers notified at once, its callback would be left suspended on the loop when the run ends
+                cls = crplan.get(kind)
+                if isinstance(cls, dict):
+                    cls = cls.get(str(world.index_of.get(node_id, -1)))
+                if cls:
+                    await asyncio.sleep(0)
+                    await asyncio.sleep(0)
+
             async def on_pipeline_start(self, ctx):
+                await self._io('pstart')
                 self._rec('pstart', None, None)
 
             async def on_pipeline_complete(self, ctx, result):
+                await self._io('pcomplete')
                 self._rec('pcomplete', None, _res_canon(result))
 
             async def on_node_start(self, ctx, node_id):
+                await self._io('nstart', node_id)
                 self._rec('nstart', node_id, None)
 
             async def on_node_complete(self, ctx, node_id, error):
+                await self._io('ncomplete', node_id)
                 self._rec('ncomplete', node_id, None if error is None else progen.exc_ident(error))
 
         class Store:
@@ -632,6 +648,7 @@ def run_program(spec, policy, n_runs=1, inputs=None, drain=True, world=None, kee
         # C13: after the callers are done, drain what is left and record anything that still happens
         after = []
         leftovers = []
+        obs2_at_end = len(w.obs2)
         if verdict == 'finished' and drain:
             n = 0
             while n < 500:
@@ -663,7 +680,7 @@ def run_program(spec, policy, n_runs=1, inputs=None, drain=True, world=None, kee
             'graph': w.graph, 'spec': spec, 'events': events, 'after': after, 'leftover_tasks': leftovers,
             'live_gates_at_end': [g.key for g in w.live_gates()],
             'saved_completed': [list(x) for x in w.saved],
-            'obs2': [list(x) for x in w.obs2],
+            'obs2': [list(x) for x in w.obs2], 'obs2_at_end': obs2_at_end,
             'live_timers_at_end': len(loop.live_timers()),
             'verdict': verdict,
             'results': [list(c.result) if c.result else (['cancelled'] if c.task.cancelled() else None) for c in ctxs],
